@@ -26,6 +26,7 @@ Deliverables, all in {wt}/out/ :
   1. patch.diff - `git diff` of your change to the library only (no test files), applicable with `git apply` on a clean checkout of the worktree's HEAD.
   2. zz_seeded_demo_test.go - a Go test file whose test function names all start with TestSeeded, first line a comment `// dir: <package directory relative to the repository root, e.g. spine>`, to be copied into that directory. It must FAIL with the change and PASS without it (run it several times both ways; if it depends on a goroutine interleaving, make it deterministic with loops/retries or by calling the functions in the order that exposes the state, or run with -race if the breakage is a data race and say so). It may use internal (package-level) access and the mocks under mocks/.
   3. NOTES.md - which clause of the property breaks, the exact trigger (what must happen, in which order), why the existing tests do not notice, and the commands you ran with their results.
+Never use `git stash` (the stash is shared by all worktrees of this repository and other agents work in parallel): toggle your change with `git diff > out/patch.diff`, `git apply -R out/patch.diff`, `git apply out/patch.diff`. While you run the whole suite keep the demo file outside the module tree (e.g. in /tmp/<your-id>-demo/), `./...` would otherwise try to build out/ as a package; copy it to out/ at the end.
 When finished: leave the worktree with the change REVERTED (git checkout -- . ; only out/ holds your results; delete any other scratch files you created). Verify the three facts yourself before finishing: (1) suite passes with the change and without the demo file, (2) demo fails with the change, (3) demo passes without the change.
 Final answer: 5-10 lines - the changed site, the trigger, and the three verification results.
 """
